@@ -187,6 +187,15 @@ func (g *Gen) callHeapEffects(c *ssa.CallCommon, li *loopInfo, depth int) {
 	li.heapAll = true
 }
 
+// markCallKeysUnknown: a non-pure call inside a loop may write the keys of its assigns clause through any object.
+func (g *Gen) markCallKeysUnknown(c *ssa.CallCommon, li *loopInfo) {
+	tmp := &loopInfo{heapKey: map[string]bool{}, modCell: map[*ssa.Alloc]bool{}}
+	g.callHeapEffects(c, tmp, 0)
+	for k := range tmp.heapKey {
+		li.keyUnknown[k] = true
+	}
+}
+
 // assignKeys adds the heap keys named by a contract's assigns clause (field selectors / ghost names).
 func (g *Gen) assignKeys(con *Contract, fn *ssa.Function, li *loopInfo) bool {
 	for _, a := range con.Assigns {
@@ -694,18 +703,23 @@ func (fr *Frame) fieldAddr(base SV, name string) (*Addr, types.Type) {
 	} else {
 		fail("assigns: %s is not addressable", name)
 	}
-	st, ok := t.Underlying().(*types.Struct)
-	if !ok {
+	if _, ok := t.Underlying().(*types.Struct); !ok {
 		fail("assigns: %s: not a struct", name)
 	}
-	for i := 0; i < st.NumFields(); i++ {
-		if st.Field(i).Name() == name {
-			_ = g
-			return a.extend(pathElem{field: i, cont: t}), st.Field(i).Type()
-		}
+	obj, index, _ := lookupFieldAnyPkg(t, name)
+	if obj == nil {
+		fail("assigns: no field %s in %s", name, t)
 	}
-	fail("assigns: no field %s in %s", name, t)
-	return nil, nil
+	_ = g
+	cur := t
+	var ft types.Type
+	for _, fi := range index {
+		st := cur.Underlying().(*types.Struct)
+		a = a.extend(pathElem{field: fi, cont: cur})
+		ft = st.Field(fi).Type()
+		cur = ft
+	}
+	return a, ft
 }
 
 func (g *Gen) ghostKeyFor(name string) (string, string) {
@@ -884,7 +898,7 @@ func (fr *Frame) applyIfaceContract(st *State, con *Contract, c *ssa.CallCommon,
 	res := g.havocVal("r_"+sanitize(c.Method.Name()), resT)
 	fr.knownRefVal(st, res)
 	env.results = unpack(res)
-	env.resNames = map[string]int{}
+	env.resNames = headerResultNames(con.Header)
 	for _, en := range con.Ensures {
 		t := fr.evalBool(en.Expr, &specCtx{fr: fr, st: st, old: pre, kind: ctxCallPost, call: env, pkg: con.Pkg})
 		g.assumeUnder(st.path, t)
@@ -927,6 +941,37 @@ func (fr *Frame) applyFuncTypeContract(st *State, con *Contract, c *ssa.CallComm
 		g.assumeUnder(st.path, t)
 	}
 	return res
+}
+
+// headerResultNames: names of named results in a contract header "...) (child Node, err error)".
+func headerResultNames(h string) map[string]int {
+	out := map[string]int{}
+	h = strings.TrimSpace(h)
+	if !strings.HasSuffix(h, ")") {
+		return out
+	}
+	d := 0
+	i := len(h) - 1
+	for ; i >= 0; i-- {
+		if h[i] == ')' {
+			d++
+		} else if h[i] == '(' {
+			d--
+			if d == 0 {
+				break
+			}
+		}
+	}
+	if i <= 0 || !strings.Contains(h[:i], ")") {
+		return out // the only parenthesis group is the parameter list
+	}
+	for k, p := range splitTop(h[i+1 : len(h)-1]) {
+		f := strings.Fields(p)
+		if len(f) >= 2 {
+			out[f[0]] = k
+		}
+	}
+	return out
 }
 
 func headerParamNames(h string) []string {
